@@ -683,6 +683,31 @@ func extractConnector() {
 	} else {
 		miss("conn_relay_conds")
 	}
+	// --- the Minter side: which transaction is sent to the multisig, with which weights and signatures
+	for _, fn := range []string{"relayBatches", "relayValsets"} {
+		name := "conn_" + strings.ToLower(fn[5:])
+		if fd := findFunc(fConnMain, "", fn); fd != nil {
+			set(name+"_conds", strings.Join(ifConds(fd.Body, ""), " | "))
+			var ws, calls []string
+			for _, n := range collect(fd.Body, func(n ast.Node) bool { _, ok := n.(*ast.AssignStmt); return ok }) {
+				a := n.(*ast.AssignStmt)
+				if len(a.Lhs) == 1 && src(a.Lhs[0]) == "weight" {
+					ws = append(ws, src(a.Rhs[0]))
+				}
+			}
+			for _, n := range collect(fd.Body, func(n ast.Node) bool { _, ok := n.(*ast.CallExpr); return ok }) {
+				c := src(n)
+				if strings.HasPrefix(c, "sort.Slice(") || strings.HasPrefix(c, "tx.SetNonce(") && strings.HasSuffix(c, ".SetSignatureType(transaction.SignatureTypeMulti)") || strings.HasPrefix(c, "tx.SetPayload(") {
+					calls = append(calls, c)
+				}
+			}
+			set(name+"_weight", strings.Join(ws, " | "))
+			set(name+"_calls", strings.Join(calls, " | "))
+		} else {
+			miss(name + "_conds")
+		}
+	}
+	set("conn_threshold", constDecl(fConnMain, "threshold"))
 	if fd := findFunc(fCommand, "Command", "ValidateAndComplete"); fd != nil {
 		set("cmd_conds", strings.Join(ifConds(fd.Body, ""), " | "))
 		var cases []string
